@@ -193,6 +193,7 @@ type fctx struct {
 	inLoop  int                        // nesting depth of loops at the current statement
 	recCl   map[types.Object]*recClosure // recursive closures in scope (recfn.go)
 	recFuel string                     // inside the body of a recursive closure: the fuel its recursive calls get
+	gotos   map[ast.Node]bool          // goto / label nodes of the supported search-loop pattern (recfn.go: searchGoto)
 }
 
 // addOpq registers an opaque parameter of the function being translated; one name must have
@@ -1249,6 +1250,9 @@ func (c *fctx) stmts(list []ast.Stmt, k func() string) string {
 	case *ast.SwitchStmt:
 		return c.switchStmt(s, next)
 	case *ast.RangeStmt:
+		if j := c.searchGoto(s, rest); j >= 0 {
+			return c.searchGotoStmt(s, rest, j, k)
+		}
 		return c.rangeStmt(s, next)
 	case *ast.ForStmt:
 		return c.forStmt(s, next)
@@ -1631,8 +1635,15 @@ func (c *fctx) loopBodyCheck(body *ast.BlockStmt) {
 			if x.Tok == token.CONTINUE && x.Label == nil {
 				return true // translated where it stands (range / counting loops); refused in for-cond loops
 			}
+			if c.gotoOK()[x] {
+				return true // goto found out of a search loop (recfn.go: searchGoto)
+			}
 			c.fail(x.Pos(), "%s inside a loop", x.Tok)
-		case *ast.GoStmt, *ast.DeferStmt, *ast.SelectStmt, *ast.SendStmt, *ast.LabeledStmt:
+		case *ast.LabeledStmt:
+			if !c.gotoOK()[x] {
+				c.fail(n.Pos(), "%T inside a loop", n)
+			}
+		case *ast.GoStmt, *ast.DeferStmt, *ast.SelectStmt, *ast.SendStmt:
 			c.fail(n.Pos(), "%T inside a loop", n)
 		}
 		return true
@@ -1739,6 +1750,12 @@ func (c *fctx) loop(s ast.Stmt, body *ast.BlockStmt, items string, itemPat func(
 }
 
 func (c *fctx) rangeStmt(s *ast.RangeStmt, next func() string) string {
+	items, pat := c.rangeItems(s)
+	return c.loop(s, s.Body, items, pat, next)
+}
+
+// rangeItems: the list a range statement folds over and the binder of one item.
+func (c *fctx) rangeItems(s *ast.RangeStmt) (string, func() string) {
 	xt := c.typeOf(c.info.TypeOf(s.X), s.X.Pos())
 	if xt.k != kSlice {
 		c.fail(s.Pos(), "range over %s (only slices)", c.info.TypeOf(s.X))
@@ -1817,7 +1834,7 @@ func (c *fctx) rangeStmt(s *ast.RangeStmt, next func() string) string {
 			c.noAssign(s.Body, c.info.Defs[id], id.Name)
 		}
 	}
-	return c.loop(s, s.Body, items, pat, next)
+	return items, pat
 }
 
 func isBlank(e ast.Expr) bool {
